@@ -8,7 +8,7 @@ import sys
 
 from rtc import cues_common
 
-PER_SCOPE = {"full": 14, "multi": 14, "noregion": 10, "plain": 22, "styled": 26, "regions": 10, "ruby": 10, "subms": 10}
+PER_SCOPE = {"full": 20, "multi": 20, "noregion": 12, "plain": 30, "styled": 36, "regions": 16, "ruby": 12, "subms": 16}
 
 if __name__ == "__main__":
   sys.exit(cues_common.main("C07", PER_SCOPE))
